@@ -17,7 +17,7 @@ def hx(b):
 class C13(Prop):
     id = "C13"
     title = "Input framing ignores packet boundaries and survives any byte stream"
-    lean_modules = ["NV.C13.Props", "NV.C13.Witness", "NV.C13.Negative", "NV.C13.TableTie", "NV.C13.Lemmas18", "NV.C13.Lemmas19"]
+    lean_modules = ["NV.C13.Props", "NV.C13.Witness", "NV.C13.Negative", "NV.C13.TableTie", "NV.C13.XTable", "NV.C13.Lemmas18", "NV.C13.Lemmas19"]
     theorems = ["NV.C13.ts_layout", "NV.C13.sb_array_has_room", "NV.C13.sb_in_bounds", "NV.C13.copy_chars_expansion",
                 "NV.C13.buffer_writes_in_bounds", "NV.C13.space_rule_sufficient", "NV.C13.space_rule_numbers",
                 "NV.C13.input_never_overflows", "NV.C13.segmentation_independent",
@@ -30,7 +30,7 @@ class C13(Prop):
                 "NV.C13.single_char_extraction_safe", "NV.C13.run_never_crashes", "NV.C13.getUserData_N",
                 "NV.C13.addConsoleLine_N", "NV.C13.console_lines_delivered", "NV.C13.console_line_exact",
                 "NV.C13.consoleLines_eq_cmdsOf", "NV.C13.statement_order_tie",
-                "NV.C13.cc_table_tie", "NV.C13.cc_table_states", "NV.C13.cc_table_total", "NV.C13.cc_table_no_crash", "NV.C13.edit_bytes_tie",
+                "NV.C13.cc_table_tie", "NV.C13.cc_table_states", "NV.C13.cc_table_total", "NV.C13.cc_table_no_crash", "NV.C13.edit_bytes_tie", "NV.C13.x_table_tie", "NV.C13.x_table_complete",
                 "NV.C13.reframeLoop_len", "NV.C13.reframe_N", "NV.C13.setCall_N", "NV.C13.endInput_N",
                 "NV.C13.reframe_is_line_framing", "NV.C13.getUserData_evok", "NV.C13.run_events_safe"]
     witness_theorems = ["NV.C13.sb_terminator_overflows_exact_array", "NV.C13.ayt_returns_to_data",
@@ -220,8 +220,10 @@ class C13(Prop):
         cases = [E.Case("cc%d" % i, ["port telnet", "ccprobe %d %d %d %s %d %s" % (ts, cr, single, sbpos, fill, hx(pre))])
                  for i, (ts, cr, single, sbpos, fill, pre) in enumerate(self.cc_configs())]
         cases.append(E.Case("ed", ["port telnet", "edprobe"]))
+        cases.append(E.Case("xp", ["port telnet", "xprobe"]))
         res = E.run_harness(self.exe, conf, cases, rd)
-        edit_txt = self.edit_bytes(res.get("ed", []))
+        edit_txt = self.edit_bytes(res.get("ed", [])) + "\n" + self.x_table(res.get("xp", []))
+        cases.pop()
         cases.pop()
 
         def sym(vals, b):
@@ -289,6 +291,33 @@ structure CcCfg where
     configuration (harness/c13/c13.c `ccprobe`) -/
 def ccTable : List CcCfg := [
 """ + ",\n".join(cfgs) + "]\n" + edit_txt)
+
+    def x_table(self, lines):
+        """small-scope exhaustive behaviour of the real cmd_in_buf / first_cmd_in_buf / next_cmd_in_buf (harness `xprobe`)"""
+        rs = [l.split()[1:] for l in lines if l.startswith("x ")]
+        if len(rs) < 2000 or any(len(r) != 14 or not all(x.isdigit() for x in r) for r in rs) or \
+                any(l.startswith(("crash", "sanitizer")) for l in lines):
+            raise X.TieBroken("x-table", "xprobe failed: %d rows; %s" % (len(rs), " / ".join(lines[-3:])[:300]))
+        widths = [1, 3, 5, 3, 3, 1, 3, 3, 3, 16, 3, 3, 3, 16]
+        codes = []
+        for r in rs:
+            c, sh = 0, 0
+            for v, w in zip(r, widths):
+                v = int(v)
+                if v >= (1 << w):
+                    raise X.TieBroken("x-table", "xprobe value %d does not fit its %d-bit field: %s" % (v, w, " ".join(r)))
+                c |= v << sh
+                sh += w
+            codes.append(c)
+        chunks = [codes[i:i + 128] for i in range(0, len(codes), 128)]
+        out = ["/-- C: chunk %d of xTable -/\ndef xTable%d : List Nat := [%s]" % (i, i, ", ".join(map(str, ch))) for i, ch in enumerate(chunks)]
+        out.append("/-- C: what the real `cmd_in_buf`, `first_cmd_in_buf` and (when a command was found) `next_cmd_in_buf` do on every buffer\n"
+                   "    over {NUL, 'a'} of length L <= 5 (then one NUL, then 0xA5 garbage), every text_start <= text_end <= L, line mode and\n"
+                   "    SINGLE_CHAR.  One number per configuration, bit fields from the low end: single:1 L:3 bits:5 start:3 end:3 cmd_in_buf:1\n"
+                   "    ret+1:3 start':3 end':3 text':16 strlen(ret):3 start'':3 end'':3 text'':16 (text codes: first 8 bytes as base-4 digits,\n"
+                   "    0 = NUL, 1 = 'a', 2 = 0xA5, 3 = other) -/\n"
+                   "def xTable : List Nat := " + " ++ ".join("xTable%d" % i for i in range(len(chunks))))
+        return "\n".join(out)
 
     def edit_bytes(self, lines):
         """which bytes telnet_neg treats as erase-previous-character, which bytes add_console_line turns into the
